@@ -113,29 +113,27 @@ def run_uncached(repo, wanted, reg):
         # parse per-harness sections
         status = {}
         cur = {}
-        # with -j the output is "Thread N: Checking harness X..." then later "Thread N: \nVERIFICATION RESULT: ... Verification Time"
-        toks = re.split(r'(?m)^(?:Thread (\d+): )?(?=Checking harness |\s*$\n^VERIFICATION RESULT:)', txt)
-        for m in re.finditer(r'(?m)^(?:Thread (\d+): )?Checking harness (\S+?)\.\.\.|^(?:Thread (\d+): )?\s*\n(VERIFICATION RESULT:.*?Verification Time: [0-9.e-]+s)', txt, re.S):
-            if m.group(2):
+        # with -j the output is a sequence of "Thread N: Checking harness X..." and "Thread N: <result block>" chunks
+        chunks = re.split(r'(?m)^(?=Thread \d+: )', txt)
+        if len(chunks) <= 1:
+            chunks = re.split(r'(?m)^(?=Checking harness )', txt)
+        for ch in chunks:
+            m = re.match(r'(?:Thread (\d+): )?Checking harness (\S+?)\.\.\.', ch)
+            th = (re.match(r'Thread (\d+): ', ch) or [None, '-'])[1] if ch.startswith('Thread') else '-'
+            if m:
                 cur[m.group(1) or '-'] = m.group(2).split('::')[-1]
+                rest = ch[m.end():]
             else:
-                name = cur.get(m.group(3) or '-')
-                if name is None:
-                    continue
-                blk = m.group(4)
-                if 'TIMEOUT' in blk.upper() or 'timed out' in blk:
-                    status[name] = ('timeout', blk)
-                elif 'VERIFICATION:- SUCCESSFUL' in blk:
-                    status[name] = ('success', blk)
-                elif 'VERIFICATION:- FAILED' in blk:
-                    status[name] = ('failed', blk)
-                else:
-                    status[name] = ('unknown', blk)
-        # cross-check with the summary
-        for m in re.finditer(r'(?m)^Verification failed for - (\S+)', txt):
-            n = m.group(1).split('::')[-1]
-            if status.get(n, ('', ''))[0] != 'failed':
-                status[n] = ('failed', status.get(n, ('', ''))[1] or txt[-1500:])
+                rest = ch
+            name = cur.get(th)
+            if name is None:
+                continue
+            if 'CBMC timed out' in rest or 'timed out' in rest.lower():
+                status[name] = ('timeout', rest[:1500])      # a time limit is never a verdict
+            elif 'VERIFICATION:- SUCCESSFUL' in rest:
+                status[name] = ('success', rest[:3000])
+            elif 'VERIFICATION:- FAILED' in rest and name not in status:
+                status[name] = ('failed', rest[:3000])
         for h in wanted:
             st, s = status.get(h['name'], ('not-run', txt[-3000:]))
             e = dict(h)
